@@ -143,6 +143,42 @@ func relRules(c *Ctx) {
 					}
 				}
 				if !ok {
+					// a deferred closure registered before the creation stops whatever the variable holds at exit
+					for _, r := range *nt.(*ssa.Call).Referrers() {
+						st, isSt := r.(*ssa.Store)
+						if !isSt {
+							continue
+						}
+						cell := P.CellOf(st.Addr)
+						if cell == nil {
+							continue
+						}
+						for _, d := range an.AllInstrs(fn, func(in ssa.Instruction) bool { _, isD := in.(*ssa.Defer); return isD }) {
+							mc, isMC := d.(*ssa.Defer).Call.Value.(*ssa.MakeClosure)
+							if !isMC || !P.Before(fn, an.Is(d), nt) {
+								continue
+							}
+							g := mc.Fn.(*ssa.Function)
+							gq := &fq{c: c, fn: g, name: an.FuncName(g)}
+							for _, s := range P.CallsTo(g, stop) {
+								ld, isL := isLoad(callArg(s, 0))
+								if !isL || P.CellOf(ld.X) != cell {
+									continue
+								}
+								ifn, ns, found := gq.nilTestOf(func(v ssa.Value) bool {
+									l2, isL2 := isLoad(v)
+									return isL2 && P.CellOf(l2.X) == cell
+								})
+								if !found && !P.PathExists(g, nil, an.IsReturn, an.Is(s), nil) {
+									ok, det = true, "a deferred closure registered before the creation stops it on every exit"
+								} else if found && !P.PathExists(g, ifn, an.IsReturn, an.Is(s), cutEdge(ifn, ns)) {
+									ok, det = true, "a deferred closure registered before the creation stops it on every exit if it was created"
+								}
+							}
+						}
+					}
+				}
+				if !ok {
 					det = "a timer/ticker is created but not stopped on every path (its resources and, for a ticker, its goroutine are kept alive)"
 				}
 				q.add("REL", "timers and tickers are stopped", ok, det, nt)
